@@ -53,6 +53,8 @@ type vfRecorder struct {
 	calls    []vfCall
 	active   map[string]string
 	failNext bool
+	failNth  int                       // >0: the failNth-th processor call of one step (poll) fails; stays armed until that happened
+	nInStep  int                       // processor calls since the last take()
 	notify   func(vfCall)              // optional; called without the lock held (sentinels in the asynchronous modes)
 	reject   func(content string) bool // optional; content the processor refuses (providers that leave validation to it)
 }
@@ -69,6 +71,9 @@ func (r *vfRecorder) record(op string, rs *vfrc.RuleSet) error {
 		c.Failed = true
 	} else if r.failNext {
 		r.failNext = false
+		c.Failed = true
+	} else if r.nInStep++; r.failNth > 0 && r.nInStep == r.failNth {
+		r.failNth = 0
 		c.Failed = true
 	} else if op == "D" {
 		delete(r.active, c.Source)
@@ -95,6 +100,7 @@ func (r *vfRecorder) take() []vfCall {
 	r.mu.Lock()
 	c := r.calls
 	r.calls = nil
+	r.nInStep = 0
 	r.mu.Unlock()
 	return c
 }
@@ -105,8 +111,16 @@ func (r *vfRecorder) armFailure() {
 	r.mu.Unlock()
 }
 
+// armFailureAt lets the n-th processor call of a later step fail (the calls before it succeed).
+func (r *vfRecorder) armFailureAt(n int) {
+	r.mu.Lock()
+	r.failNth = n
+	r.mu.Unlock()
+}
+
 func (r *vfRecorder) disarm() {
 	r.mu.Lock()
+	r.failNth = 0
 	r.failNext = false
 	r.mu.Unlock()
 }
@@ -114,7 +128,7 @@ func (r *vfRecorder) disarm() {
 func (r *vfRecorder) armed() bool {
 	r.mu.Lock()
 	defer r.mu.Unlock()
-	return r.failNext
+	return r.failNext || r.failNth > 0
 }
 
 func (r *vfRecorder) snapshot() map[string]string {
@@ -231,6 +245,7 @@ type vfOracle struct {
 	srcKey  map[string]string // logical source -> Source string the provider used when it created it
 	keyOf   map[string]string // Source string -> logical source
 	dirty   map[string]bool   // last expected call failed (injected) or was skipped after a failure
+	deleted map[string]bool   // unloaded successfully and no create/update attempted since: a further delete is a repetition
 	taint   map[string]string // logical source -> signature of the first divergence that involved it
 	mism    []vfMismatch
 	trace   []vfTraceStep
@@ -252,7 +267,7 @@ func (s *vfStats) add(k string, n int) {
 
 func vfNewOracle(st *vfStats) *vfOracle {
 	return &vfOracle{applied: map[string]string{}, srcKey: map[string]string{}, keyOf: map[string]string{},
-		dirty: map[string]bool{}, taint: map[string]string{}, stat: st}
+		dirty: map[string]bool{}, deleted: map[string]bool{}, taint: map[string]string{}, stat: st}
 }
 
 // vfStep is one processing step of the provider (one notification handled, one poll done).
@@ -365,7 +380,7 @@ func (o *vfOracle) step(idx int, s *vfStep, calls []vfCall) {
 		case c.Failed && st.Kind == vfInvalid && c.Op != "D":
 			// the provider leaves validation to the processor, which refused this content: nothing was applied
 			o.stat.add("invalid_content_refused_by_processor", 1)
-		case e.Op == "" && c.Op == "D" && !wasApplied && (st.Kind == vfGone || st.Kind == vfEmpty || st.Kind == vfSignalGone):
+		case e.Op == "" && c.Op == "D" && !wasApplied && !o.deleted[l] && (st.Kind == vfGone || st.Kind == vfEmpty || st.Kind == vfSignalGone):
 			// unload of a removed source that is not loaded (e.g. its creation had failed): no effect
 			o.stat.add("redundant_delete_of_unapplied_source", 1)
 		case e.Lenient:
@@ -390,6 +405,11 @@ func (o *vfOracle) step(idx int, s *vfStep, calls []vfCall) {
 			}
 		}
 		handled[l] = true
+		if c.Op != "D" {
+			delete(o.deleted, l)
+		} else if !c.Failed {
+			o.deleted[l] = true
+		}
 		lastFailed[l] = c.Failed // a further call for l in this step is then a retry, not a duplicate
 		if c.Failed {
 			if st.Kind != vfInvalid {
